@@ -2,6 +2,7 @@
 """apply every /verif/seeded/*/patch.diff to /repo in turn, run the quick check of the listed properties, undo.
 usage: tools_seed_matrix.py [seed-name ...] [--props C01,C02]   -> prints a table, writes seeded/RESULTS.json"""
 import json, os, subprocess, sys, re
+sys.path.insert(0, "/verif/contracts")
 V = "/verif"
 args = [a for a in sys.argv[1:] if not a.startswith("--")]
 props = None
@@ -10,6 +11,35 @@ for a in sys.argv[1:]:
         props = a[8:].split(",")
 man = json.load(open(f"{V}/MANIFEST.json"))
 claimed = [c["property_id"] for c in man["checks"]]
+AUTO = "--auto" in sys.argv
+# --auto: per seed, run the target property's check and every check that reads a file the patch touches (from the evidence of the
+# last clean run: functions_under_contract[].file, kani sources); the replay-based cross-checks (C08, C10) read the whole crate and run
+# whenever the patch touches parsers / generators / expectation / rules / escaping. Other checks read none of the changed bytes: "untouched".
+def files_of(p):
+    try:
+        ev = json.load(open(f"{V}/evidence/{p}.json"))
+    except Exception:
+        return None
+    fs = {f["file"] for f in ev["coverage"].get("functions_under_contract", [])}
+    for h in ev["coverage"].get("kani_harnesses", []) or []:
+        fs |= set(h.get("files", []))
+    return fs
+FILES = {p: files_of(p) for p in claimed}
+import glob as _g
+from registry import REG as _REG  # noqa
+for _p in claimed:
+    for _ku in _REG.get(_p, {}).get("kani_units", []):
+        for _l in open(f"{V}/contracts/kani/{_ku}.kx"):
+            _m = re.match(r"@item (\S+)", _l)
+            if _m and FILES.get(_p) is not None:
+                FILES[_p].add(_m.group(1))
+WHOLE = {"C08": ("src/parsers", "src/expectation.rs", "src/rules", "src/escaping.rs", "src/newline.rs"), "C10": ("src/parsers", "src/generators", "src/expectation.rs", "src/rules", "src/escaping.rs", "src/newline.rs", "src/output.rs", "src/testcase.rs", "src/diff.rs")}
+def relevant(p, target, touched):
+    if p == target or FILES.get(p) is None:
+        return True
+    if FILES[p] & touched:
+        return True
+    return any(t.startswith(pre) for t in touched for pre in WHOLE.get(p, ()))
 seeds = args or sorted(d for d in os.listdir(f"{V}/seeded") if os.path.isdir(f"{V}/seeded/{d}"))
 res_path = f"{V}/seeded/RESULTS.json"
 results = json.load(open(res_path)) if os.path.exists(res_path) else {}
@@ -21,8 +51,12 @@ for s in seeds:
     if r.returncode != 0:
         print(s, "patch does not apply:", r.stderr.strip()[:200]); results[s] = {"apply": False}; continue
     row = {}
+    touched = set(re.findall(r"^\+\+\+ b/(\S+)", open(f"{V}/seeded/{s}/patch.diff").read(), re.M))
     try:
         for p in (props or claimed):
+            if AUTO and not relevant(p, target, touched):
+                row[p] = {"exit": 0, "clauses": [], "line": "untouched: this check reads none of the files the patch changes"}
+                continue
             o = subprocess.run([f"{V}/check", p, "--tier", "quick"], capture_output=True, text=True)
             lines = [l for l in o.stdout.split("\n") if re.match(r"^(PASS|VIOLATION|INCONCLUSIVE|FAILED-OBLIGATION|KNOWN)", l)]
             cl = sorted({m.group(1) for l in lines for m in [re.search(r"clause=(\S+)", l)] if m})
